@@ -103,7 +103,7 @@ CHECKS = {
             "proved sound).  C04_scalar_unaltered, C04_number, C04_array_length, C04_array_no_items, C04_declared_member, C04_additional_member say under which names.  The two false halves (equal "
             "float beyond 2^53, member collision) are refuted in Coq and recorded as findings.  Each run evaluates Validate.build in Coq on every generated (tree, value), requires the identical "
             "constructed result from the implementation, counts the cases satisfying safeb, and walks input vs returned model on the implementation.",
-            "full under the named premise; that the only extra result keys are declared properties is by correspondence"),
+            "full under the named premise, both directions (C04_complete: nothing dropped; C04_no_invented_members: every key of the model built for an object is the image of an input member or a declared property)"),
     "C07": ("Coq theorems: by case analysis over every branch of parse_element (the returned element carries the schema's default, all shapes, all default values) and on the JSON serializer model (every element is written with exactly its default and description, C07_serialized_*) + signature obligations regenerated from /repo + default x shape x position oracle through parser, both serializers and the executed module + parse-tree correspondence",
             "C07_parsed_default is proved for every schema object, parse state and default value on the parser model (which includes the branches repaired by fixes "
             "804a592/773e603); C07_serialized_default / C07_serialized_description: for every element other than Nothing() and any caller definitions the JSON serializer model writes an object whose "
@@ -133,7 +133,7 @@ CHECKS = {
             "slot-by-slot map over the 27 keywords) and v6 WCode (ser_inl e) v agrees with build e v (C03_inplace_meaning: the typed-object clause of Spec6 with the code's required-with-default waiver).  "
             "Both checkers proved sound and counted per run (codes 9/10).  Also C03_required_complete, C03_properties_keyed_by_source; refuted on the old behaviour: C03_old_*_refuted (fixes f0c8af1, aba574c).  "
             "C03_meaning_definitions: with CALLER-SUPPLIED definitions (every sub-element == to a definition replaced by a reference to it) and several roots, under the executable premise DefsFrag.cd_okb "
-            "(primary and definitions in the fragment of C17's class congruence, every class and definition present under its name/key, no definition deeper than a node it equals; proved sound, code 12), "
+            "(primary and definitions in the fragment of C17's class congruence, every class and definition present under its name/key; proved sound, code 12), "
             "the emitted document resolves to one that accepts exactly what the tree accepts - by the two-serializer congruence C17Classes.ek_cong and ser_inl_cong.  "
             "Outside the theorems: the orderer's class collection (taken from the implementation and checked by defs_okb / cd_okb).  Each run (i) recomputes every generated document with SerJson/RunSer.ser_doc inside Coq and requires equality with serialize_json's output, (ii) resolves "
             "the references of the RAW document inside Coq and evaluates Spec6.v on it for values aimed at the tree, (iii) checks json.dumps, $ref resolution and the Draft-6 metaschema (jsonschema).  "
@@ -159,7 +159,9 @@ CHECKS = {
             "proved for all inputs of their mechanism.  The end-to-end claim passes through json_ref_dict.materialize, Python's repr of literals and Python's lexer/exec "
             "(not modelled): every generated document (local and cross-file $ref, shared definitions, auto-titled nested objects, repeated titles, false sub-schemas) "
             "is generated by main(), executed with only builtins in scope, and its classes compared (count, names, == both ways, verdicts on aimed values) with "
-            "parse(materialize(doc)).  Findings K1-K4 (names, docstrings).",
+            "parse(materialize(doc)).  C02_equal_classes_validate_identically: that a generated class equal to the parsed one validates identically is C17's class congruence (fragment goodc); "
+            "every compared pair is re-evaluated by Equality.elem_eq in Coq and counted when the theorem applies; template documents carry hand-written verdicts of the source schema.  "
+            "Findings K1-K4 (names, docstrings).",
             "partial (mechanism theorems + execution oracle)"),
 }
 
